@@ -1176,6 +1176,14 @@ def div_input(s):
     return val, obj, exact
 
 
+def opt_form(v, form):
+    """the option value `v` (canonical Python bool / int) in the form named: numpy.bool_, int 1 / 0, numpy integers"""
+    import numpy as np
+    if form is None or (form == "bool" and isinstance(v, bool)) or (form == "int" and type(v) is int):
+        return v
+    return {"bool": bool, "int": int, "np.bool_": np.bool_, "np.int64": np.int64, "np.int32": np.int32, "np.uint8": np.uint8}[form](v)
+
+
 def div_call(qu, g, dec, iso, a2, call):
     import numpy as np
     if call == "pos":
@@ -1195,7 +1203,7 @@ def div_call(qu, g, dec, iso, a2, call):
         if iso:
             kw["iso"] = iso
         if not a2:
-            kw["apply_a2"] = False
+            kw["apply_a2"] = a2          # False in whatever form the case names (False / numpy.False_ / 0)
         return qu.unitary(g, **kw)
     if call == "build-pos":
         return qu.build_unitary(np.asarray(g), dec, iso)
@@ -1345,10 +1353,12 @@ def div_eval(s, disable_a2=False):
                             top.append(c)
                         return c
                     qu.build_unitary = build_top
+                    # the options as handed over: apply_a2 / iso in the form the spec names (the judgement uses the canonical s["a2"], s["iso"])
+                    a2_f, iso_f = opt_form(a2, s.get("a2form")), opt_form(iso, s.get("isoform"))
                     try:
-                        circ = div_call(qu, obj, dec, iso, a2, s.get("call", "pos"))
+                        circ = div_call(qu, obj, dec, iso_f, a2_f, s.get("call", "pos"))
                         rec1 = list(rec)
-                        circ_again = div_call(qu, obj, dec, iso, a2, s.get("call", "pos")) if s.get("use") == "twice" else None
+                        circ_again = div_call(qu, obj, dec, iso_f, a2_f, s.get("call", "pos")) if s.get("use") == "twice" else None
                     finally:
                         qu.build_unitary = orig
         except Exception as e:  # noqa: BLE001  qclib raised
@@ -1401,7 +1411,8 @@ def div_eval(s, disable_a2=False):
 
 def div_tag(s):
     return f"{s['matrix']}*{s.get('phase', '1')}:{s['etype']}:{s.get('call', 'pos')}:{s.get('use', 'plain')}" + \
-        (f"@{s['host']}" if s.get("host") else "")
+        (f"@{s['host']}" if s.get("host") else "") + \
+        (f":forms=apply_a2/{s.get('a2form') or 'bool'},iso/{s.get('isoform') or 'int'}" if (s.get("a2form") or s.get("isoform")) else "")
 
 
 def div_replay(s):
@@ -1476,7 +1487,7 @@ def div_judge(ctx, s, res):
         return
     want_a2 = dec == "qsd" and a2 and not s.get("call", "pos").startswith("build")
     if res["a2_called"] != want_a2:
-        ctx.fail(f"a2-decision:{dec}:a2={int(a2)}:div:{s.get('call', 'pos')}",
+        ctx.fail(f"a2-decision:{dec}:a2={int(a2)}:div:{s.get('call', 'pos')}" + (f":apply_a2/{s['a2form']}:n={n}" if s.get("a2form") else ""),
                  f"_apply_a2 called={res['a2_called']}, expected {want_a2} (call form {s.get('call', 'pos')})", rep)
         return
     if res["a2_raised"]:
@@ -1509,6 +1520,12 @@ def div_judge(ctx, s, res):
     else:
         ctx.ok(key, nontrivial=n >= 2, sample={"n": n, "matrix": s["matrix"], "etype": s["etype"], "call": s.get("call", "pos"),
                                                 "use": s.get("use", "plain"), "dec": dec, "iso": iso, "a2": a2, "err": res["err"]})
+        if s.get("a2form"):
+            ctx.count(f"flagforms:apply_a2:{s['a2form']}")
+            ctx.count(f"flagforms:apply_a2:{s['a2form']}:{bool(a2)}:via {s.get('call', 'pos')}:{dec}")
+        if s.get("isoform"):
+            ctx.count(f"flagforms:iso:{s['isoform']}")
+            ctx.count(f"flagforms:iso:{s['isoform']}:{'0' if iso == 0 else 'n-1' if iso == n - 1 else 'middle'}:via {s.get('call', 'pos')}")
 
 
 def div_spec(ctx, matrix, n, etype, dec, iso, a2, phase="1", call="pos", use="plain", host=None, tie=None, seed=None):
@@ -1655,8 +1672,44 @@ def div_specs_uses(ctx):
     return out
 
 
+def div_specs_flagforms(ctx):
+    """apply_a2 True / False as bool, numpy.bool_ and int 1 / 0, and iso = 0 (valid and falsy: "no freed qubit"), the middle and
+    n - 1 as int / numpy.int64 / numpy.int32, through every way unitary() and build_unitary() take them (positional, keyword, reversed
+    keywords, mixed, only-the-non-defaults), at n = 2 (size <= 4: one UnitaryGate + the A.2 pass) and n = 3, 4 (recursive split, iso
+    recursion), qsd and csd.  Same oracle (operator to 1e-7 over the leading columns, the A.2 decision = canonical bool) and ties
+    (build shape with the canonical iso, a2 decision with the canonical bool)."""
+    out = []
+    a2forms, isoforms = ("np.bool_", "int", "bool"), ("np.int64", "int", "np.int32")
+    calls = ["pos", "kw", "kw-rev", "mixed", "mixed2", "min"]
+    k = ctx.rng.randrange(36)
+    for n in (2, 3, 4):
+        inputs = [("haar", "c128"), ("monomial_pmi", "c128"), ("hadamard", "f64")]
+        seeds = [ctx.rng.getrandbits(32) for _ in inputs]
+        for dec in ("qsd", "csd"):
+            for iso in sorted({0, (n - 1) // 2, n - 1}):
+                for a2 in (True, False):
+                    for j in range(3 if n <= 3 else 1):
+                        k += 1
+                        af, jf = a2forms[k % 3], isoforms[(k // 3) % 3]
+                        if af == "bool" and jf == "int":
+                            af = "np.bool_"
+                        mat, et = inputs[k % 3]
+                        s = div_spec(ctx, mat, n, et, dec, iso, a2, call=calls[k % 6], seed=seeds[k % 3])
+                        s.update(a2form=af, isoform=jf)
+                        out.append(s)
+                    if not a2:
+                        k += 1
+                        mat, et = inputs[k % 3]
+                        s = div_spec(ctx, mat, n, et, dec, iso, False, call=("build-pos", "build-kw", "build-min")[k % 3], seed=seeds[k % 3])
+                        s.update(isoform=isoforms[k % 3 if k % 3 != 1 else 0])
+                        out.append(s)
+    for s in out:
+        ctx.count(f"diversity:flagforms:{s['call']}:{s['dec']}")
+    return out
+
+
 def diversity_specs(ctx):
-    return div_specs_etypes(ctx) + div_specs_structure(ctx) + div_specs_calls(ctx) + div_specs_uses(ctx)
+    return div_specs_etypes(ctx) + div_specs_structure(ctx) + div_specs_calls(ctx) + div_specs_uses(ctx) + div_specs_flagforms(ctx)
 
 
 def div_applicable(s):
@@ -1698,11 +1751,12 @@ def div_ucr_one(ctx, s):
     from qiskit.circuit.library import RYGate, RZGate, CXGate, CZGate
     from qiskit.quantum_info import Operator
     from qclib.gates.ucr import ucr
-    axis, ent, last, call = s["axis"], s["ent"], s["last"], s["call"]
+    axis, ent, last0, call = s["axis"], s["ent"], s["last"], s["call"]
+    last = opt_form(bool(last0), s.get("lastform"))        # last_control as bool / numpy.bool_ (what `not np.any(...)` gives) / int
     ang = div_ucr_angles(s["form"], s["values"])
     up = [float(v) for v in ang]          # the value handed in (float32 rounds the literals)
     k = int(math.log2(len(up)))
-    key = f"ucr-div:{axis}:{ent}:{int(last)}:k={k}:{s['form']}:{call}:{s['name']}"
+    key = f"ucr-div:{axis}:{ent}:{int(last)}:k={k}:{s['form']}:{call}:{s['name']}" + (f":last_control/{s['lastform']}" if s.get("lastform") else "")
     rep = {"call": "qclib.gates.ucr.ucr (input-diversity case, direct call as unitary.py makes it)", "div_ucr": s}
     rg, cg = (RYGate if axis == "Y" else RZGate), (CXGate if ent == "CX" else CZGate)
     before = div_fingerprint(ang)
@@ -1716,7 +1770,7 @@ def div_ucr_one(ctx, s):
             if ent != "CX":
                 kw["c_gate"] = cg
             if not last:
-                kw["last_control"] = False
+                kw["last_control"] = last
             circ = ucr(rg, ang, **kw)
     except Exception as e:  # noqa: BLE001
         ctx.fail(f"ucr-raises:{axis}:{ent}:{int(last)}:k={k}:{s['form']}:{call}", f"ucr raised {type(e).__name__}: {e} on angles {ang!r}", rep)
@@ -1738,7 +1792,10 @@ def div_ucr_one(ctx, s):
     if err > TOL:
         ctx.fail(key, f"max |Operator(ucr) - multiplexer| = {err:.3e} for angles {ang!r}", dict(rep, observed_err=err))
     else:
-        ctx.ok(key, nontrivial=k >= 1, sample={"ucr": axis + ent, "last": last, "form": s["form"], "angles": up[:4], "err": err})
+        ctx.ok(key, nontrivial=k >= 1, sample={"ucr": axis + ent, "last": bool(last), "form": s["form"], "angles": up[:4], "err": err})
+        if s.get("lastform"):
+            ctx.count(f"flagforms:last_control:{s['lastform']}")
+            ctx.count(f"flagforms:last_control:{s['lastform']}:{bool(last)}:via {call}:k={k}")
 
 
 def from_leaves(leaves):
@@ -1791,6 +1848,18 @@ def div_ucr_specs(ctx):
                     ctx.count(f"diversity:ucr:{form}")
                     ctx.count(f"diversity:ucr-call:{call}")
             ctx.count(f"diversity:ucr-angles:{name}")
+    # last_control True / False as bool, numpy.bool_ and int, positional / keyword / only-when-non-default, k = 0 (no control: the
+    # flag selects nothing), 1, 2, 3; the three (axis, entangler) pairs of the sweep above
+    for k in range(0, 4):
+        m = 2 ** k
+        for lf in ("np.bool_", "int", "bool"):
+            for last in (True, False):
+                for call in ("pos", "kw", "min"):
+                    i += 1
+                    axis, ent = (("Y", "CZ"), ("Y", "CX"), ("Z", "CX"), ("Y", "CZ"))[i % 4]       # (Z, CZ) multiplexes nothing: CZ commutes with RZ
+                    vals = [r.uniform(0.05, pi - 0.05) for _ in range(m)] if i % 3 else [1 + 2 * j for j in range(m)]
+                    out.append({"axis": axis, "ent": ent, "last": last, "lastform": lf, "form": "list" if i % 3 else "list-i64", "values": vals,
+                                "call": call, "name": "flagforms"})
     return out
 
 
